@@ -321,6 +321,27 @@ Definition reader_assumptions : list assumption := [
 Definition reader_assumptions_hold (calls : list call_fact) (accs : list access_fact) : bool :=
   calls_ok calls accs reader_assumptions.
 
+(* ------------------------- connection ownership (Model/Lifecycle.v lookup steps, Model/TransportConnect.v)
+   Label                        Go code                                              assumption
+   LFDial / LFLookup /          Dialer.LookupPartition(s): the lookup connection is    L1
+   LFSeeCancel (FLookup)        closed by a defer of the FUNCTION (every way out,
+                                also <-ctx.Done()), registered before the helper
+                                goroutine starts; the helper's read has no deadline
+   TSetupOk (TSetup false)      grabConnOrConnect's helper, case <-ctx.Done():          L2
+                                if !g.releaseConn(c) { c.close() } *)
+Definition lifecycle_assumptions : list assumption := [
+  (* L1 *) InCaller "Dialer.LookupPartition" (UsedExactlyOnce "Conn.Close" HDefer "Dialer.LookupPartition");
+           InCaller "Dialer.LookupPartition" (CallNotAfter "Conn.Close" "go:Dialer.LookupPartition$1");
+           InCaller "Dialer.LookupPartitions" (UsedExactlyOnce "Conn.Close" HDefer "Dialer.LookupPartitions");
+           InCaller "Dialer.LookupPartitions" (CallNotAfter "Conn.Close" "go:Dialer.LookupPartitions$1");
+  (* L2 *) InCaller "connGroup.grabConnOrConnect$1" (UsedExactlyOnce "conn.close" HCall "connGroup.grabConnOrConnect$1");
+           InCaller "connGroup.grabConnOrConnect$1" (CallAfterCall "conn.close" "connGroup.releaseConn");
+           InCaller "connGroup.grabConnOrConnect$1" (CallAfterCall "connGroup.releaseConn" "connGroup.connect")
+].
+
+Definition lifecycle_assumptions_hold (calls : list call_fact) (accs : list access_fact) : bool :=
+  calls_ok calls accs lifecycle_assumptions.
+
 (* ---------------------------------------------- Conn (Model/ConnMux.v, Model/ConnOps.v conn_do)
    Label            Go code (conn.go, batch.go)                                   assumption
    Enter            doRequest: c.enter() (atomic inflight++) before wlock          K1
